@@ -51,6 +51,14 @@ class ExcValue:
         return f"Exc<{self.cls}>"
 
 
+class ExcGroup(ExcValue):
+    """BaseExceptionGroup / ExceptionGroup with a concrete list of member exceptions."""
+
+    def __init__(self, cls, members):
+        super().__init__(cls, ())
+        self.members = list(members)
+
+
 class ModelCallable:
     def __init__(self, fn, name="model"):
         self.fn = fn
@@ -242,6 +250,11 @@ def getattr_model(it, base, attr):
         return BoundBuiltin(attr, base)
     if isinstance(base, (VTime, VDelta)):
         return BoundBuiltin(attr, base)
+    if isinstance(base, ExcGroup):
+        if attr == "exceptions":
+            return tuple(base.members)
+        if attr == "split":
+            return BoundBuiltin("split", base)
     if isinstance(base, ExcValue):
         if attr == "args":
             return tuple(base.args)
@@ -376,6 +389,12 @@ def isinstance_model(it, v, cls):
 
 def call_bound(it, f: BoundBuiltin, args, kwargs):
     t, name = f.target, f.name
+    if isinstance(t, ExcGroup) and name == "split":
+        from .interp import exc_is_subclass
+        cname = it.exc_class_name_of(args[0])
+        match = [m for m in t.members if exc_is_subclass(m.cls, cname, it.ctx.extra_exc)]
+        rest = [m for m in t.members if not exc_is_subclass(m.cls, cname, it.ctx.extra_exc)]
+        return (ExcGroup(t.cls, match) if match else None, ExcGroup(t.cls, rest) if rest else None)
     if isinstance(t, VQty):
         return qty_method(it, t, name, args, kwargs)
     if isinstance(t, VDelta):
@@ -698,7 +717,7 @@ def ext_method(it, ref, h, name, args, kwargs):
             it.ctx.deref(h.fields["results"]).items.append(res)
         return res
     if spec.get("is_async"):
-        return Coro(run, label=f"{h.cls[4:]}.{name}")
+        return Coro(run, label=f"{h.cls[4:]}.{name}", scripted=True)
     return run()
 
 
@@ -959,9 +978,10 @@ def call_asyncio(it, name, args, kwargs):
                  "(calls it makes to scripted collaborators are recorded at creation)")
         co = args[0]
         outcome = None
-        if isinstance(co, Coro):
+        if isinstance(co, Coro) and co.scripted:
             # the task is in flight from now on: what it calls on scripted collaborators is recorded here,
-            # and how the coroutine ends is how the task will end
+            # and how the coroutine ends is how the task will end.  (Coroutines of repository functions
+            # are not run: such a task ends in an arbitrary way at an arbitrary later time.)
             try:
                 it.engine.run_coro(it, co)
                 outcome = VEnum("task_outcome", "returned")
@@ -1342,6 +1362,8 @@ def call_builtin(it, name, args, kwargs):
                 return True
             except PyRaise:
                 return False
+    if name in ("BaseExceptionGroup", "ExceptionGroup"):
+        return ExcGroup(name, it.iterate_concrete(args[1]))
     if name in ("ValueError", "TypeError", "KeyError", "RuntimeError", "NotImplementedError",
                 "AssertionError", "IndexError", "Exception", "BaseException", "AttributeError",
                 "ZeroDivisionError", "StopIteration", "TimeoutError", "OSError", "LookupError",
